@@ -766,25 +766,23 @@ def rule_dispatch(ctx, R, NR, BR, rules=None):
         std = [s for s in S.calls if s["c"].body_path == NR.std_pass.path]
         lmc = [s for s in S.calls if s["c"].body_path == NR.lm_pass.path]
         outs = [s for s in S.calls if s["c"].body_path == NR.outputs_pass.path]
-        sw = switches_on(root, lambda d: d[0] == "discr" and m(F(Par(1), "match_kind"), d[1]))
-        ok = len(std) == 1 and len(lmc) == 1 and len(outs) == 1 and len(sw) == 1
+        ok = len(std) == 1 and len(lmc) == 1 and len(outs) == 1
         if want("NFA-DISPATCH"):
             ctx.check(ok, "NFA-DISPATCH", b, "dispatch-on-kind:" + tag, b.span,
-                      "one match on self.match_kind choosing between the standard and the leftmost fail pass, then the outputs pass")
+                      "one choice on self.match_kind between the standard and the leftmost fail pass, then the outputs pass")
         if not ok:
             continue
-        sbi, stj, _ = sw[0]
-        arms = {val: tb for val, tb in stj["targets"]}
-        oth = stj["otherwise"]
-        kinds = {a["name"]: a["discr"] for a in lib.adts["MatchKind"]["variants"]}
-        def arm_of(name):
-            return arms.get(kinds[name], oth)
         if want("NFA-DISPATCH"):
-            ctx.check(b.edge_guards((sbi, arm_of("Standard")), std[0]["bb"]) and arm_of("Standard") not in (arm_of("LeftmostLongest"), arm_of("LeftmostFirst")),
-                      "NFA-DISPATCH", b, "standard-arm:" + tag, b.loc(std[0]["bb"]), "MatchKind::Standard must use the standard fail pass")
-            for kn in ("LeftmostLongest", "LeftmostFirst"):
-                ctx.check(lmc[0]["bb"] in b.reach(arm_of(kn), avoid_blocks=[std[0]["bb"]]) and std[0]["bb"] not in b.reach(arm_of(kn), avoid_blocks=[lmc[0]["bb"], outs[0]["bb"]]),
-                          "NFA-DISPATCH", b, "leftmost-arm:%s:%s" % (kn, tag), b.loc(lmc[0]["bb"]), "MatchKind::%s must use the leftmost fail pass" % kn)
+            # evaluated per kind (match, matches!, ==, is_standard()/is_leftmost() — any form of the choice)
+            mk_ok = lambda t: m(F(Par(1), "match_kind"), t)
+            for kn in ("Standard", "LeftmostLongest", "LeftmostFirst"):
+                vis = cond.explore(root, [0], cond.kind_atoms(lib, mk_ok, kn))
+                want_bb, other_bb = (std[0]["bb"], lmc[0]["bb"]) if kn == "Standard" else (lmc[0]["bb"], std[0]["bb"])
+                okk = vis is not None and want_bb in vis and other_bb not in vis and outs[0]["bb"] in vis
+                if kn == "Standard":
+                    ctx.check(okk, "NFA-DISPATCH", b, "standard-arm:" + tag, b.loc(std[0]["bb"]), "MatchKind::Standard must use the standard fail pass")
+                else:
+                    ctx.check(okk, "NFA-DISPATCH", b, "leftmost-arm:%s:%s" % (kn, tag), b.loc(lmc[0]["bb"]), "MatchKind::%s must use the leftmost fail pass" % kn)
             q = outs[0]["args"][1]
             qdefs = members(q)
             if q[0] == "var":
@@ -843,10 +841,11 @@ def _cw_nfa_fn(ctx, v, NR, b, S, want):
     chars = adds[0]["args"][1]
     okc = chars[0] == "var"
     if okc:
-        pushes = [s for s in S.keyed(lambda k: k == VEC_PUSH) if core.same(s["args"][0], chars)]
+        adds_ = coll.additions(S, lambda t: core.same(t, chars), closures=True)
         clears = [s for s in S.keyed(lambda k: k == "alloc::vec::Vec::clear") if core.same(s["args"][0], chars)]
         pat_item = P(C(ITER_NEXT, ANY))
-        okc = len(pushes) == 1 and m(("item", C(endswith("::chars"), F(pat_item, "0", "(tuple)"))), pushes[0]["args"][1]) and len(clears) == 1
+        okc = len(adds_) == 1 and m(It(C(endswith("::chars"), F(pat_item, "0", "(tuple)"))), adds_[0].val) and len(clears) == 1 and \
+            not adds_[0].filters and adds_[0].unconditional()
     if want("CW-NB"):
         ctx.check(okc, "CW-NB", b, "all-chars-added:cw", b.loc(adds[0]["bb"]),
                   "every char of the pattern (pattern.as_ref().chars()) must be passed to add")
